@@ -18,7 +18,7 @@ pub fn transform(value: impl Value) -> anyhow::Result<mir::Device> {
     let objects = device_map
         .iter()
         .filter(|(k, _)| *k != "config")
-        .map(transform_object)
+        .map(|kv| transform_object_with_config(kv, &global_config))
         .collect::<Result<_, _>>()?;
 
     Ok(mir::Device {
@@ -165,7 +165,15 @@ fn transform_name_word_boundaries(value: &impl Value) -> anyhow::Result<Vec<Boun
     }
 }
 
-fn transform_object((key, value): (&str, &impl Value)) -> anyhow::Result<mir::Object> {
+#[cfg_attr(not(test), allow(dead_code))]
+fn transform_object(key_value: (&str, &impl Value)) -> anyhow::Result<mir::Object> {
+    transform_object_with_config(key_value, &mir::GlobalConfig::default())
+}
+
+fn transform_object_with_config(
+    (key, value): (&str, &impl Value),
+    global_config: &mir::GlobalConfig,
+) -> anyhow::Result<mir::Object> {
     let try_ = || {
         let object_map = value.as_map()?;
 
@@ -175,10 +183,26 @@ fn transform_object((key, value): (&str, &impl Value)) -> anyhow::Result<mir::Ob
             .as_string()?;
 
         match object_type {
-            "block" => Ok(mir::Object::Block(transform_block(key, object_map)?)),
-            "register" => Ok(mir::Object::Register(transform_register(key, object_map)?)),
-            "command" => Ok(mir::Object::Command(transform_command(key, object_map)?)),
-            "buffer" => Ok(mir::Object::Buffer(transform_buffer(key, object_map)?)),
+            "block" => Ok(mir::Object::Block(transform_block(
+                key,
+                object_map,
+                global_config,
+            )?)),
+            "register" => Ok(mir::Object::Register(transform_register(
+                key,
+                object_map,
+                global_config,
+            )?)),
+            "command" => Ok(mir::Object::Command(transform_command(
+                key,
+                object_map,
+                global_config,
+            )?)),
+            "buffer" => Ok(mir::Object::Buffer(transform_buffer(
+                key,
+                object_map,
+                global_config,
+            )?)),
             "ref" => Ok(mir::Object::Ref(transform_ref(key, object_map)?)),
             val => Err(anyhow!(
                 "Unexpected object type '{val}'. Select one of \"block\", \"register\", \"command\", \"buffer\" or \"ref\""
@@ -189,7 +213,11 @@ fn transform_object((key, value): (&str, &impl Value)) -> anyhow::Result<mir::Ob
     try_().with_context(|| format!("Parsing object `{key}`"))
 }
 
-fn transform_block(name: &str, map: &impl Map) -> anyhow::Result<mir::Block> {
+fn transform_block(
+    name: &str,
+    map: &impl Map,
+    global_config: &mir::GlobalConfig,
+) -> anyhow::Result<mir::Block> {
     let mut block = mir::Block {
         name: name.into(),
         ..Default::default()
@@ -203,7 +231,7 @@ fn transform_block(name: &str, map: &impl Map) -> anyhow::Result<mir::Block> {
                 .map(|object_map| {
                     object_map
                         .iter()
-                        .map(transform_object)
+                        .map(|kv| transform_object_with_config(kv, global_config))
                         .collect::<Result<Vec<mir::Object>, anyhow::Error>>()
                 })
                 .and_then(std::convert::identity)
@@ -240,9 +268,15 @@ fn transform_block(name: &str, map: &impl Map) -> anyhow::Result<mir::Block> {
     Ok(block)
 }
 
-fn transform_register(name: &str, map: &impl Map) -> anyhow::Result<mir::Register> {
+fn transform_register(
+    name: &str,
+    map: &impl Map,
+    global_config: &mir::GlobalConfig,
+) -> anyhow::Result<mir::Register> {
     let mut register = mir::Register {
         name: name.into(),
+        access: global_config.default_register_access,
+        bit_order: global_config.default_bit_order,
         ..Default::default()
     };
 
@@ -324,7 +358,8 @@ fn transform_register(name: &str, map: &impl Map) -> anyhow::Result<mir::Registe
                     .context("Parsing error for 'allow_address_overlap'")?;
             }
             "fields" => {
-                register.fields = transform_fields(value).context("Parsing error for 'fields'")?;
+                register.fields = transform_fields(value, global_config)
+                    .context("Parsing error for 'fields'")?;
             }
             val => {
                 bail!("Unexpected key: '{val}'")
@@ -335,9 +370,14 @@ fn transform_register(name: &str, map: &impl Map) -> anyhow::Result<mir::Registe
     Ok(register)
 }
 
-fn transform_command(name: &str, map: &impl Map) -> anyhow::Result<mir::Command> {
+fn transform_command(
+    name: &str,
+    map: &impl Map,
+    global_config: &mir::GlobalConfig,
+) -> anyhow::Result<mir::Command> {
     let mut command = mir::Command {
         name: name.into(),
+        bit_order: global_config.default_bit_order,
         ..Default::default()
     };
 
@@ -400,12 +440,12 @@ fn transform_command(name: &str, map: &impl Map) -> anyhow::Result<mir::Command>
                     .context("Parsing error for 'allow_address_overlap'")?;
             }
             "fields_in" => {
-                command.in_fields =
-                    transform_fields(value).context("Parsing error for 'fields_in'")?;
+                command.in_fields = transform_fields(value, global_config)
+                    .context("Parsing error for 'fields_in'")?;
             }
             "fields_out" => {
-                command.out_fields =
-                    transform_fields(value).context("Parsing error for 'fields_out'")?;
+                command.out_fields = transform_fields(value, global_config)
+                    .context("Parsing error for 'fields_out'")?;
             }
             val => {
                 bail!("Unexpected key: '{val}'")
@@ -416,9 +456,14 @@ fn transform_command(name: &str, map: &impl Map) -> anyhow::Result<mir::Command>
     Ok(command)
 }
 
-fn transform_buffer(name: &str, map: &impl Map) -> anyhow::Result<mir::Buffer> {
+fn transform_buffer(
+    name: &str,
+    map: &impl Map,
+    global_config: &mir::GlobalConfig,
+) -> anyhow::Result<mir::Buffer> {
     let mut buffer = mir::Buffer {
         name: name.into(),
+        access: global_config.default_buffer_access,
         ..Default::default()
     };
 
@@ -677,17 +722,27 @@ fn transform_repeat(value: &impl Value) -> anyhow::Result<mir::Repeat> {
     Ok(mir::Repeat { count, stride })
 }
 
-fn transform_fields(value: &impl Value) -> anyhow::Result<Vec<mir::Field>> {
+fn transform_fields(
+    value: &impl Value,
+    global_config: &mir::GlobalConfig,
+) -> anyhow::Result<Vec<mir::Field>> {
     value
         .as_map()?
         .iter()
-        .map(|kv| transform_field(kv).with_context(|| format!("Parsing field '{}'", kv.0)))
+        .map(|kv| {
+            transform_field(kv, global_config)
+                .with_context(|| format!("Parsing field '{}'", kv.0))
+        })
         .collect()
 }
 
-fn transform_field((field_name, field_value): (&str, &impl Value)) -> anyhow::Result<mir::Field> {
+fn transform_field(
+    (field_name, field_value): (&str, &impl Value),
+    global_config: &mir::GlobalConfig,
+) -> anyhow::Result<mir::Field> {
     let mut field = mir::Field {
         name: field_name.into(),
+        access: global_config.default_field_access,
         ..Default::default()
     };
 
